@@ -11,6 +11,9 @@ Driver of the C20 model (belief projection). One request line in, one response l
   slot <functional 0|1> <p,p,…|->       the active Propositions of the target's slot, in id order
   a <prop> <actor|-> <ev,ev…|-> <s|r|u> <conf> <mode> <status a|r|s|e|x> <visible 0|1> <from|-> <until|->
         one stored Assertion; its id is its ordinal (0,1,2…) in the case
+  raise <ordinal> <conf>                 rewrite the stored confidence of one Assertion
+  status <ordinal> <a|r|s|e|x>           rewrite its lifecycle status (RETRACT / SUPERSEDE / expiry)
+  route <name>                           harness-side marker (which route the real code is driven by); `ok`
   project <target>
   slotproject                            every Proposition of the slot, `|`-separated
 
@@ -152,6 +155,20 @@ def step (st : St) (line : String) : St × String :=
                          conf := c, mode := m, status := su, visible := v, validFrom := f, validUntil := u }
       ({ st with rows := st.rows ++ [row] }, "ok")
     | _, _, _, _, _, _, _, _, _, _ => (st, "bad-op")
+  | ["route", _] => (st, "ok")
+  | ["raise", i, c] =>
+    match i.toNat?, c.toInt? with
+    | some i, some c =>
+      ({ st with rows := st.rows.map (fun r => if r.id = i then { r with conf := c } else r) }, "ok")
+    | _, _ => (st, "bad-op")
+  | ["status", i, s] =>
+    let status? : Option Status := match s with
+      | "a" => some .active | "r" => some .retracted | "s" => some .superseded
+      | "e" => some .expired | "x" => some .other | _ => none
+    match i.toNat?, status? with
+    | some i, some su =>
+      ({ st with rows := st.rows.map (fun r => if r.id = i then { r with status := su } else r) }, "ok")
+    | _, _ => (st, "bad-op")
   | ["project", target] =>
     match target.toNat? with
     | some t => (st, showAnswer (project st.pol st.now st.rows st.functional st.slot t))
